@@ -51,6 +51,7 @@ type Violation struct {
 	Step     int    `json:"step"`
 	What     string `json:"what"`
 	Trace    string `json:"trace,omitempty"`
+	Line     int    `json:"line,omitempty"` // number of trace lines written when the oracle fired
 	Sig      string `json:"signature,omitempty"`
 }
 
